@@ -66,7 +66,7 @@ Fixpoint run_op (depth : nat) (op : bytes) (input : arg) : arg :=
       (parse_kdf_options (fx_kdf_opts fx) (arg_bytes i0) (arg_nat i1) (arg_nat (arg_nth 2 input)))
   else if bytes_eqb op (bs "ssh1") then
     let dec := fun _ : bytes => arg_bytes i1 in
-    AL [match ssh1_parse dec (arg_bytes i0) with
+    AL [match ssh1_parse_gen (fx_ssh1_cipher fx) dec (arg_bytes i0) with
         | Ok (S1Key k) => AL [AZ 0; ssh1_key_arg k]
         | Ok (S1Corrupted n e c) => AL [AZ 3; AL [AB (strip_zeros n); AB (low8 e); AB c]]
         | Err _ => AL [AZ 1]
@@ -211,7 +211,7 @@ Definition leaks (strs : list bytes) (mag : bytes) : bool :=
   existsb (fun s => existsb (fun f => contains f s) forms
                     || existsb (fun run => Nat.leb 16 (length run) && (dec_to_N run =? be_to_N mag)) (digit_runs [] s)) strs.
 
-Definition check_spec (spec : arg) (obs : arg) : arg :=
+Definition check_spec_strict (spec : arg) (obs : arg) : arg :=
   match spec with
   | AL [AB alg; size; curve; AL meta; AL forbidden] =>
       match obs with
@@ -266,6 +266,15 @@ Definition check_spec (spec : arg) (obs : arg) : arg :=
       match obs with AL [AZ 2%Z] => AS "panic while describing a key" | _ => AL [] end
   end.
 
+(* a sixth element 1: the container contradicts itself (a key type label that is not the type of the key next
+   to it); a reader may refuse it, but whatever it reports has to be true of the key that is there *)
+Definition check_spec (spec : arg) (obs : arg) : arg :=
+  match spec with
+  | AL [a; b; c; d; e; AZ 1%Z] =>
+      match obs with AL [AZ 1%Z] => AL [] | _ => check_spec_strict (AL [a; b; c; d; e]) obs end
+  | _ => check_spec_strict spec obs
+  end.
+
 Definition last_arg (a : arg) : arg := last (arg_list a) (AL []).
 
 (* explicit EC parameters: a panic inside elliptic.CurveNameFromParameters (empty base point, F5) is
@@ -278,6 +287,36 @@ Definition curve_matcher_panics (op : bytes) (oracle : arg) : bool :=
   else if bytes_eqb op (bs "sec1") then match oracle with AL [_; _; _; _; inf] => is_panic_obs inf | _ => false end
   else match oracle with AL [_; _; _; e] => ec_oracle_panics e | _ => false end.
 
+(* SSH1 private key file: the cipher type is the octet after the 33-octet magic
+   "SSH PRIVATE KEY FILE FORMAT 1.1" LF NUL (ssh-1.2.x authfile.c; cipher.h: 0 none, 1 idea, 2 des,
+   3 3des, 4 tss, 5 arcfour, 6 blowfish).  Whatever is said about encryption has to agree with it:
+   the key is shown as encrypted iff the octet is not 0, and a cipher, if one is named, is that one. *)
+Definition ssh1_cipher_names (c : N) : list bytes :=
+  if c =? 1 then [bs "idea"] else if c =? 2 then [bs "des"] else if c =? 3 then [bs "3des"; bs "3-des"; bs "triple"]
+  else if c =? 4 then [bs "tss"] else if c =? 5 then [bs "rc4"; bs "arcfour"] else if c =? 6 then [bs "blowfish"]
+  else [dec_of_N c].
+Definition check_ssh1_cipher (spec : arg) (data : bytes) (obs : arg) : arg :=
+  match spec, obs with
+  | AL (_ :: _), AL [AZ 0%Z; ia] =>
+      let i := info_of_arg ia in
+      let c := nth 33 data 0 in
+      let says_encrypted := contains (bs "encrypted") (map to_lower_ascii (i_desc i)) in
+      if negb (c =? 0) && negb says_encrypted then AS "an encrypted SSH1 key (cipher type not 0) is not shown as encrypted"
+      else if (c =? 0) && says_encrypted then AS "an SSH1 key stored in the clear is shown as encrypted"
+      else
+        match values_of (bs "Cipher") (all_attrs i) with
+        | [] => AL []
+        | [v] =>
+            let lv := map to_lower_ascii v in
+            if c =? 0 then (if bytes_eqb lv (bs "none") then AL [] else AS "a cipher is shown for an SSH1 key stored in the clear")
+            else if existsb (fun n => contains n lv) (ssh1_cipher_names c)
+                    && negb ((c =? 2) && existsb (fun n => contains n lv) (ssh1_cipher_names 3))
+                 then AL [] else AS "the cipher shown is not the one the SSH1 cipher type octet names"
+        | _ => AS "cipher shown more than once"
+        end
+  | _, _ => AL []
+  end.
+
 Definition check_C02 (op : bytes) (input impl : arg) : arg :=
   if bytes_eqb op (bs "int") || bytes_eqb op (bs "crypto") then AL []
   else if bytes_eqb op (bs "kdf") then
@@ -285,7 +324,10 @@ Definition check_C02 (op : bytes) (input impl : arg) : arg :=
   else if bytes_eqb op (bs "ssh1") then
     match arg_nth 0 impl with
     | AL [AZ 2%Z] => AS "ssh1.ParsePrivateKey panics"
-    | _ => check_spec (last_arg input) (arg_nth 1 impl)
+    | _ => match check_spec (last_arg input) (arg_nth 1 impl) with
+           | AL [] => check_ssh1_cipher (last_arg input) (arg_bytes (arg_nth 0 input)) (arg_nth 1 impl)
+           | v => v
+           end
     end
   else if bytes_eqb op (bs "pgpkey") then
     (* one expectation per key: the primary key's own attributes, then each subkey child *)
@@ -303,6 +345,12 @@ Definition check_C02 (op : bytes) (input impl : arg) : arg :=
           end
     | _ => check_spec (arg_nth 0 (arg_nth 1 input)) impl
     end
-  else if bytes_eqb op (bs "e2e") then check_spec (last_arg (arg_nth 1 input)) impl
+  else if bytes_eqb op (bs "e2e") then
+    match check_spec (last_arg (arg_nth 1 input)) impl with
+    | AL [] => if bytes_eqb (arg_bytes (arg_nth 0 input)) (bs "ssh1")
+               then check_ssh1_cipher (last_arg (arg_nth 1 input)) (arg_bytes (arg_nth 0 (arg_nth 1 input))) impl
+               else AL []
+    | v => v
+    end
   else if curve_matcher_panics op (arg_nth 1 input) then AL []
   else check_spec (last_arg input) impl.
